@@ -19,6 +19,18 @@ func rKnownCollisions(emit func(Case), completeness bool) {
 		{[]rRoute{{"POST", "/:y"}, {"GET", `/\:`}}, "GET", "/bba", "GET /bba"},
 		{[]rRoute{{"GET", `/a/\:x`}, {"GET", "/a/:id"}}, "GET", "/a/b", "GET /a/b"},
 	}
+	if completeness {
+		// known finding D11 witness (C02 only)
+		rs := []rRoute{{"GET", "/:section/us/:name"}, {rNF, "/v1/us/*"}}
+		srv := rBuild(rs, []int{0, 1})
+		o := srv.serve("GET", "/v1/us/x")
+		ok, why := true, ""
+		if o.status == 200 && rs[o.id].method == rNF {
+			ok, why = false, "route GET /:section/us/:name matches the path but the custom not-found route /v1/us/* answered"
+		}
+		emit(Case{In: L(I(0), rTableSx(rs), S("GET"), S("/v1/us/x")), Out: o.sx(), Ok: ok, Why: why, Key: "known:router.nf_wildcard_preempts",
+			Human: fmt.Sprintf("table [%s] GET /v1/us/x -> %s", rShowTable(rs), o)})
+	}
 	for _, w := range ws {
 		srv := rBuild(w.rs, []int{0, 1})
 		o := srv.serve(w.m, w.p)
